@@ -1084,6 +1084,16 @@ def _recv_text(ctx, fn: FuncInfo, e: Optional[ast.AST]) -> str:
     return norm(ctx.inf.expand_alias(fn, e), 200)
 
 
+def _binding_for(node: ast.AST, fn: FuncInfo, name: str):
+    """The innermost enclosing `for` whose target binds ``name``."""
+    lp = _enclosing_for(node, fn)
+    while lp is not None:
+        if any(isinstance(x, ast.Name) and x.id == name for x in ast.walk(lp.target)):
+            return lp
+        lp = _enclosing_for(lp, fn)
+    return None
+
+
 def _reg_covers(ctx, fn: FuncInfo, m: Eff, r: Registration) -> bool:
     """Is registration ``r`` a table inverse of own mutation ``m`` (same object)?"""
     inf, eff = ctx.inf, ctx.eff
@@ -1110,6 +1120,11 @@ def _reg_covers(ctx, fn: FuncInfo, m: Eff, r: Registration) -> bool:
     if isinstance(tgt, ast.Attribute):
         name = tgt.attr
         same_container = _recv_text(ctx, fn, tgt.value) == _recv_text(ctx, fn, m.recv)
+        if same_container and isinstance(tgt.value, ast.Name):
+            # the same *name* in two different loops is two different objects (`for group in ...` twice in one function)
+            la, lb = _binding_for(r.node, fn, tgt.value.id), _binding_for(m.node, fn, tgt.value.id)
+            if la is not None and lb is not None and la is not lb:
+                same_container = False
         if same_container and m.recv is not None:
             if m.op == "add" and name in CONTAINER_REMOVE:
                 return True
@@ -1125,6 +1140,8 @@ def _reg_covers(ctx, fn: FuncInfo, m: Eff, r: Registration) -> bool:
     # (another iteration space: other objects) is not accepted as acting on the same object
     if r.closure is None and _enclosing_for(r.node, fn) is not _enclosing_for(m.node, fn) and m.op in ("rebind", "write") and m.cell.endswith("._model"):
         return False
+    if r.closure is None and m.cell == "Group._members" and _enclosing_for(r.node, fn) is not _enclosing_for(m.node, fn) and _enclosing_for(m.node, fn) is not None and _enclosing_for(r.node, fn) is not None:
+        return False  # group membership of *other* objects (another loop): not the inverse of this removal
     list_cell = m.cell in ("Model.reactions", "Model.metabolites", "Model.genes", "Model.groups") and m.op in ("add", "remove")
     for t in r.target_fn:
         summ = eff.summary(t) + [e for e in eff.own_effects(t) if e.kind == "RAW"]
